@@ -49,13 +49,13 @@ static uint64_t helper(const char* k, const char* w, uint64_t x) {
 
 int main(void) {
     static char line[1 << 20];
-    char* argv[64];
+    char* argv[1024];
     const char* off = getenv("HX_OFFSET");
     if (off) g_offset = (unsigned)atoi(off);
     setvbuf(stdout, 0, _IOLBF, 0);
     while (fgets(line, sizeof line, stdin)) {
         int argc = 0;
-        for (char* t = strtok(line, " \n"); t && argc < 64; t = strtok(0, " \n")) argv[argc++] = t;
+        for (char* t = strtok(line, " \n"); t && argc < 1024; t = strtok(0, " \n")) argv[argc++] = t;
         if (argc == 0) { puts("BADCMD"); continue; }
         const char* c = argv[0];
         if ((!strcmp(c, "G") || !strcmp(c, "S") || !strcmp(c, "I")) && argc >= 3) {
@@ -107,6 +107,46 @@ int main(void) {
             if (isnull) putchar('-'); else hx_print_buf(pdu, len);
             if (hasres) printf(" %llx\n", (unsigned long long)r); else printf(" %s\n", argv[5]);
             free(base);
+        } else if (!strcmp(c, "Q") && argc >= 2) {
+            /* Q buf0,buf1,... op op ...   op = g:name:k[:a] | s:name:k:a[:b] | i:name:k | l:name:k:a:b:res
+               one history over several buffers in ONE process; a token is printed after every step */
+            enum { MAXB = 8 };
+            uint8_t* pdu[MAXB]; uint8_t* base[MAXB]; size_t len[MAXB]; int nb = 0;
+            static char bufs[1 << 16];
+            strncpy(bufs, argv[1], sizeof bufs - 1);
+            for (char* t = strtok(bufs, ","); t && nb < MAXB; t = strtok(0, ",")) {
+                pdu[nb] = hx_alloc_exact(t, &len[nb], g_offset, &base[nb]); nb++;
+            }
+            for (int i = 2; i < argc; i++) {
+                char* f[8]; int nf = 0;
+                for (char* t = argv[i]; t && nf < 8; ) { f[nf++] = t; t = strchr(t, ':'); if (t) *t++ = 0; }
+                if (nf < 3) { printf("BADOP "); continue; }
+                int k = atoi(f[2]);
+                if (k < 0 || k >= nb) { printf("BADBUF "); continue; }
+                uint64_t a = nf > 3 ? ux(f[3]) : 0, b = nf > 4 ? ux(f[4]) : 0;
+                if (f[0][0] == 'l') {
+                    const hx_lentry* e = 0;
+                    for (int u = 0; hx_lall[u] && !e; u++)
+                        for (const hx_lentry* q = hx_lall[u]; q->name; q++)
+                            if (strcmp(q->name, f[1]) == 0) { e = q; break; }
+                    if (!e) { printf("NOSUCH "); continue; }
+                    int hasres = nf > 5 && strcmp(f[5], "-") && strcmp(f[5], "x");
+                    uint64_t r = hasres ? ux(f[5]) : 0;
+                    int64_t rc = e->fn(pdu[k], a, b, hasres ? &r : 0);
+                    printf("r%s,", rc == 0 ? "0" : (rc == -22 ? "E" : "?")); hx_print_buf(pdu[k], len[k]);
+                    if (hasres) printf(",%llx ", (unsigned long long)r); else printf(",%s ", nf > 5 ? f[5] : "x");
+                } else {
+                    const hx_entry* e = find(f[1]);
+                    if (!e) { printf("NOSUCH "); continue; }
+                    uint64_t r = e->fn(pdu[k], a, b);
+                    if (f[0][0] == 'g') printf("v%llx ", (unsigned long long)r);
+                    else { putchar('b'); hx_print_buf(pdu[k], len[k]); putchar(' '); }
+                }
+            }
+            printf("F");
+            for (int k = 0; k < nb; k++) { putchar(k ? ',' : ' '); hx_print_buf(pdu[k], len[k]); }
+            putchar('\n');
+            for (int k = 0; k < nb; k++) free(base[k]);
         } else if (!strcmp(c, "H") && argc == 5) {
             printf("V %llx\n", (unsigned long long)helper(argv[2], argv[3], ux(argv[4])));
         } else if (hx_ext(argc, argv)) {
